@@ -126,6 +126,7 @@ class RandCfg:
         self.disp = True
         self.safe_rep = True      # repetition bodies always consume (no divergence)
         self.labels = True
+        self.recursive = False    # references to ANY rule (itself and earlier ones included) behind a consuming class: right and mutual recursion
         self.__dict__.update(kw)
 
 
@@ -156,6 +157,8 @@ def random_group(rng, gi, cfg):
             kinds += ["pred"]
         if refs:
             kinds += ["ref"]
+        if cfg.recursive and refs is not None:
+            kinds += ["recref", "recref"]
         if cfg.throw:
             kinds += ["recover", "recover"]
             if minlab < 3:
@@ -193,12 +196,18 @@ def random_group(rng, gi, cfg):
                           g=(1 if cfg.gstore and rng.random() < 0.3 else 0))
         if k == "ref":
             return g.ref(rng.choice(refs))
+        if k == "recref":
+            # one rune is consumed before the rule is entered again: recursion as deep as the input is long, never left recursion
+            guard = g.cls((A, B), (), False, False) if rng.random() < 0.7 else g.any()
+            tail = [expr(d - 1, refs, handlers, minlab)] if rng.random() < 0.3 else []
+            r = g.ref(rng.randint(1, nr))
+            return g.seq([guard, g.label(r) if cfg.labels and rng.random() < 0.4 else r] + tail)
         if k == "recover":
             labs = rng.sample(LABS, rng.randint(1, 2))
             e = expr(d - 1, refs, handlers + [labs], minlab)
             # handlers stay in force while a recovery expression runs: it may throw only labels greater than
             # every label of its own operator and calls no rule, so no family member recurses without bound
-            rec = expr(max(d - 2, 0), [], handlers, max(minlab, max(LABS.index(l) for l in labs) + 1))
+            rec = expr(max(d - 2, 0), None, handlers, max(minlab, max(LABS.index(l) for l in labs) + 1))
             return g.recover(e, rec, labs)
         if k == "throw":
             cand = [l for l in sorted({l for h in handlers for l in h}) if LABS.index(l) >= minlab]
